@@ -1,4 +1,5 @@
 import SurfProofs.Lemmas.ProtoNumeric
+import SurfProofs.Lemmas.ProtoUtf8
 /-! C04: bracketed paste, UTF-8 text, and the literal key table. -/
 namespace SurfProofs.ProtoText
 open SurfModel.Vt SurfModel.Sgr SurfModel.Grammar SurfModel.Payload SurfModel.Protocol SurfModel.Automata
@@ -18,7 +19,7 @@ theorem paste_payload (t : List Nat) (h : (Msg.paste t).Valid) :
   simp only [decode]
   unfold decodePaste
   rw [sub?_ok _ _ (by rw [paste_print]; simp)]
-  simp only [hs, h.1, if_true, denote]
+  simp only [hs, (ProtoUtf8.textOk_facts t h).1, if_true, denote]
 
 theorem notEsc_matches (t : List Nat) (h : 27 ∉ t ∧ ∀ b ∈ t, b < 256) : (Re.star notEsc).Matches (bytes t) := by
   apply star_pred_matches
@@ -35,7 +36,7 @@ theorem paste_member (t : List Nat) (h : (Msg.paste t).Valid) : pasteRe.Matches 
       bytes [27, 91, 50, 48, 48, 126] ++ (bytes t ++ (bytes [27, 91, 50, 48, 49, 126] ++ [])) := by
     rw [paste_print]; simp [bytes]
   rw [this]
-  exact seq_cons_matches (lit_matches _) (seq_cons_matches (notEsc_matches t ⟨h.2.1, h.2.2⟩)
+  exact seq_cons_matches (lit_matches _) (seq_cons_matches (notEsc_matches t (ProtoUtf8.textOk_facts t h).2)
     (seq_cons_matches (lit_matches _) seq_nil_matches))
 
 /-! ## UTF-8 text -/
@@ -71,7 +72,7 @@ theorem text_payload (c : Nat) (h : (Msg.text c).Valid) :
     decode .utf8 (print (.text c)) = .ok (some (denote (.text c))) := by
   simp only [decode, print, denote]
   unfold decodeUtf8
-  rw [utf8Decode_utf8 c h.1]
+  rw [utf8Decode_utf8 c ((ProtoUtf8.scalar_iff c).mp h.1)]
 
 theorem range_matches (lo hi b : Nat) (hlo : lo < 256) (hhi : hi < 256) (h : lo ≤ b ∧ b ≤ hi) :
     (range lo hi).Matches (bytes [b]) := by
@@ -90,7 +91,7 @@ theorem seq2 {a b : Re} {u v : List UInt8} (h1 : a.Matches u) (h2 : b.Matches v)
 
 theorem text_member (c : Nat) (h : (Msg.text c).Valid) : utf8PrintableRe.Matches (bytes (print (.text c))) := by
   obtain ⟨hs, h32, h127⟩ := h
-  obtain ⟨hlt, hsur⟩ := scalar_lt c hs
+  obtain ⟨hlt, hsur⟩ := scalar_lt c ((ProtoUtf8.scalar_iff c).mp hs)
   simp only [print]
   unfold utf8PrintableRe utf8Re utf8
   by_cases h1 : c < 0x80
